@@ -177,7 +177,10 @@ class _Counters:
                     names = {n.id for n in ast.walk(st.value) if isinstance(n, ast.Name)}
                     if names and names <= set(env) and not any(isinstance(n, (ast.Call, ast.Attribute, ast.Subscript)) for n in ast.walk(st.value)):
                         try:
-                            env[st.targets[0].id] = sp.expand(Translator(env=dict(env)).tr(st.value))
+                            here = dict(env)
+                            for cn in names & set(self.c):
+                                here[cn] = self.value(cn, st)       # a counter is read where the temporary is defined, not where it is used
+                            env[st.targets[0].id] = sp.expand(Translator(env=here).tr(st.value))
                         except AnalysisError:
                             pass
         return env
@@ -551,10 +554,22 @@ def _r2(ck: Checker, prog: Program):
 def _selection(f, body, lst, ret):
     """How the retained list is built: (record var, key expr, chosen expr, counter name or None, problems)."""
     # (a) comprehension
+    def single_def(name):
+        ds = [x for x in body if isinstance(x, ast.Assign) and len(x.targets) == 1 and isinstance(x.targets[0], ast.Name) and x.targets[0].id == name]
+        return ds[0].value if len(ds) == 1 else None
     for st in body:
-        if isinstance(st, ast.Assign) and len(st.targets) == 1 and isinstance(st.targets[0], ast.Name) and st.targets[0].id == lst \
-                and isinstance(st.value, ast.ListComp):
+        if isinstance(st, ast.Assign) and len(st.targets) == 1 and isinstance(st.targets[0], ast.Name) and st.targets[0].id == lst:
             c = st.value
+            limit = None
+            # list(<generator>) and list(islice(<generator>, total)) - the generator possibly held in a local first
+            if isinstance(c, ast.Call) and call_name(c) == "list" and len(c.args) == 1 and not c.keywords:
+                c = c.args[0]
+                if isinstance(c, ast.Call) and call_name(c) == "islice" and len(c.args) == 2 and not c.keywords:
+                    c, limit = c.args
+                if isinstance(c, ast.Name) and c.id != lst:
+                    c = single_def(c.id)
+            if not isinstance(c, (ast.ListComp, ast.GeneratorExp)) or (isinstance(c, ast.GeneratorExp) and c is st.value):
+                continue
             if len(c.generators) != 1 or unparse(c.generators[0].iter) != "records" or not isinstance(c.generators[0].target, ast.Name):
                 return None
             rec = c.generators[0].target.id
@@ -567,6 +582,11 @@ def _selection(f, body, lst, ret):
             key, chosen = t.left, t.comparators[0]
             if rec not in unparse(key):
                 key, chosen = chosen, key
+            if limit is not None:
+                scan = _majority_scan(body)
+                total = unparse(limit)
+                if not (total == f"dt_with_count[{unparse(chosen)}]" or (scan is not None and total == scan[1] and unparse(chosen) == scan[0])):
+                    problems.append(f"the selection stops after `{total}` records")
             return rec, key, chosen, None, problems
     # (b) append loop
     lp = [st for st in body if isinstance(st, ast.For) and unparse(st.iter) == "records" and isinstance(st.target, ast.Name)]
